@@ -692,6 +692,38 @@ def run_c14(ctx):
     return k1_finish(ctx, 'C14', out_v, mismatches, 'Area64/GetBounds64/PointInPolygon/isCollinear/productsAreEqual/multiplyUInt64/triSign/StripDuplicates')
 
 
+# ------------------------------------------------------------------ generic runner for harness-decided cases
+def run_direct(ctx, cmd, n, key_fields, text_fn, args=(), timeout=900):
+    out, err = fw.run_stream(ctx['root'], ctx['workdir'], cmd, ctx['seed'], n, list(args))
+    if out is None:
+        raise RuntimeError(err)
+    ctx['outdir'] = out
+    meta = fw.load_meta(out)
+    summary = json.load(open(os.path.join(out, 'summary.json')))
+    _merge_dist(ctx, summary)
+    ctx['evaluations'] += sum(int(m.get('calls', 1)) for m in meta.values())
+    ctx['nontrivial'] += int(summary.get('distinct_nontrivial', 0))
+    for m in list(meta.values())[:2]:
+        ctx['samples'].append({k: m[k] for k in m if len(str(m[k])) < 800})
+    viol, seen = [], set()
+    for d in summary.get('direct_failures') or []:
+        e = {k: d.get(k) for k in key_fields}
+        key = d.get('known_key') or fw.input_key(e)
+        kk = (key, d.get('kind'))
+        if kk in seen:
+            continue
+        seen.add(kk)
+        viol.append({'key': key, 'kind': d.get('kind'), 'text': text_fn(d), 'detail': {'corpus_entry': e, 'failure': {k: d[k] for k in d if len(str(d[k])) < 3000}}})
+    return viol
+
+
+def run_c03(ctx):
+    fields = ('api', 'subject', 'clip', 'open', 'subject_nil', 'clip_nil', 'ct', 'fr', 'precision', 'delta', 'jt', 'et')
+    return run_direct(ctx, 'c03', _tier(ctx, 4000, 150000), fields,
+                      lambda d: '%s %s (clip type %s, fill rule %s, precision %s, delta %s, join %s, end %s; subject %s)' % (
+                          d.get('api'), d.get('kind'), d.get('ct'), d.get('fr'), d.get('precision'), d.get('delta'), d.get('jt'), d.get('et'), str(d.get('subject'))[:200]))
+
+
 REGION_TRUST = [
     "the region checker is proved sound for every real point (Cert/RegionSound.v); what ties it to the code is that the implementation's actual outputs are fed to the extracted checker on every run (generated + corpus inputs): a defect no generated input triggers stays invisible",
     fw.REAL_AXIOMS,
@@ -740,6 +772,13 @@ PROPS = {
                   'lib/propdefs.py: exact-integer statement of each clause (shoelace sum, extremes, crossing parity, cross product) evaluated on the implementation outputs'],
         'rule': 'int64 values around 0, +-1, 2^26, 2^29, 2^53, arbitrary 64-bit patterns for the arithmetic kernels; point triples biased to exact collinearity and unit differences; paths of all generator kinds plus the 2^30 square wound 1-5 times; point/polygon pairs with the point on vertices, edges and horizontals through vertices, on grids 2..10 and at 2^26/2^29; non-trivial = collinear triples, paths >= 3 points, all point-in-polygon cases',
         'assumes': [],
+    },
+    'C03': {
+        'run': run_c03, 'level': 'proof',
+        'trust': ['totality theorems are about the Gallina models of the leaf routines (Trim, Minkowski, PointInPolygon, StripDuplicates, SimplifyPath, precision check), tied to the code by the correspondence checks of C14/C15/C16/C08',
+                  'PARTIAL: for the sweep, ClipperOffset and the rectangle clipper "terminates, does not panic, reports success" is OBSERVED, not proved: every exported entry point is driven under recover, a 20 s wall-clock limit and a success-flag check on hostile inputs; nil dereferences and unbounded loops inside the sweep are runtime behaviours no model here exhibits'],
+        'rule': 'hostile path sets (nil, empty, empty paths, 1-2 points, repeated points, all-horizontal, all-collinear, out-and-back, on-rectangle-boundary, coincident polygons, coordinates up to 2^29) x 26 API groups x clip types 0..6 x fill rules 0..5 x precisions -9..12 x deltas 0..1e7 both signs x join types 0..4 x end types 0..5 x empty/inverted rectangles; evaluations = individual API calls; a case is non-trivial always (every case drives all 26 API groups)',
+        'assumes': ['D-API inputs are scaled so that quantised magnitudes stay within 2^29 (beyond it int64 products wrap: recorded under C13)'],
     },
     'C02': {
         'run': run_c02, 'level': 'proof', 'trust': REGION_TRUST,
